@@ -42,7 +42,11 @@ func DecodeEsdsSR(hdr BoxHeader, startPos uint64, sr bits.SliceReader) (Box, err
 		Version: version,
 		Flags:   versionAndFlags & flagsMask,
 	}
-	descSize := uint32(hdr.Size - 12)
+	// bytes of the box after version and flags: the ES descriptor must not reach beyond them
+	var descSize uint32
+	if hdr.Size >= uint64(hdr.Hdrlen)+4 {
+		descSize = uint32(hdr.Size - uint64(hdr.Hdrlen) - 4)
+	}
 	var err error
 	e.ESDescriptor, err = DecodeESDescriptor(sr, descSize)
 	if err != nil {
